@@ -1154,8 +1154,14 @@ static int apply(void *vst, int op, bool check)
         st->flushed = true;
     if (op >= OP_OPT0 && op < OP_OPT0 + MAXOPT * MAXVAL) {
         int oi = (op - OP_OPT0) / MAXVAL, vi = (op - OP_OPT0) % MAXVAL;
-        if (ubase_check(ea))
+        if (ubase_check(ea)) {
+            /* setflowdef: a new dictionary is a new output definition (documented), the output is asked again */
+            if (!strcmp(g_row->name, "setflowdef") && oi == 0 && (st->optmodel[oi] < 0 ? 0 : st->optmodel[oi]) != vi && st->flow != 0) {
+                st->om[0].ostate = OS_NONE;
+                sev_add(st, stamp0, -1, 1);
+            }
             st->optmodel[oi] = vi;
+        }
         if (st->ninputs)
             st->opt_changed_after_input = true;
     }
